@@ -95,6 +95,10 @@ func c15Gen(tier string, emit func(c15Case)) {
 	for _, name := range []string{"n1", "n2"} {
 		ops = append(ops, "RenameFirst:"+name, "RenamePrev:"+name)
 	}
+	// a route for ANOTHER method registered under the name with the very path of the previous registration
+	for _, name := range []string{"n1", "n2"} {
+		ops = append(ops, "AddNamedSamePathOtherMethod:"+name)
+	}
 	maxL := 3
 	if tier == "thorough" {
 		maxL = 4
@@ -126,6 +130,7 @@ func c15Run(c c15Case, st *fw.Stats) []fw.Viol {
 		r := rux.New()
 		want := map[string]*rux.Route{}
 		var all []*rux.Route
+		lastPath := ""
 		for i, op := range c.Ops {
 			parts := strings.SplitN(op, ":", 2)
 			api, name := parts[0], parts[1]
@@ -135,6 +140,12 @@ func c15Run(c c15Case, st *fw.Stats) []fw.Viol {
 			}
 			var rt *rux.Route
 			switch api {
+			case "AddNamedSamePathOtherMethod":
+				if lastPath == "" {
+					continue
+				}
+				path = lastPath
+				rt = r.AddNamed(name, path, c13Noop, []string{"POST", "PUT", "DELETE"}[i%3])
 			case "AddNamed":
 				rt = r.AddNamed(name, path, c13Noop, "GET")
 			case "NewNamedRoute":
@@ -157,6 +168,7 @@ func c15Run(c c15Case, st *fw.Stats) []fw.Viol {
 			}
 			all = append(all, rt)
 			want[name] = rt
+			lastPath = path
 			// after every step the URL built for the name is the URL of the route now registered under it
 			if !strings.Contains(path, "{") {
 				if pv := try(func() {
